@@ -206,6 +206,23 @@ Theorem C35_floor_gas_eq_spec : forall create self hasv dataLen z addresses keys
 Proof. exact floor_gas_eq_spec. Qed.
 Print Assumptions C35_floor_gas_eq_spec.
 
+Theorem C35_floor_gas_args_eq_spec : forall a r,
+  zlen (ta_data a) < two64 ->
+  floor_data_gas a r =
+  res_of_unbounded
+    (spec_floor_data_gas (forks_of r) (ta_is_create a) (ta_is_self a) (ta_has_value a)
+       (count_zero (ta_data a)) (zlen (ta_data a) - count_zero (ta_data a))
+       (u64 (zlen (ta_al_list a))) (u64 (storage_keys (ta_al_list a)))).
+Proof. exact floor_gas_args_eq_spec. Qed.
+Print Assumptions C35_floor_gas_args_eq_spec.
+
+(* AccessList.StorageKeys() is the true number of keys when it fits an int *)
+Theorem C35_storage_keys_sum : forall al,
+  Forall (fun n => 0 <= n) al -> fold_right Z.add 0 al < two63 ->
+  storage_keys al = fold_right Z.add 0 al.
+Proof. exact storage_keys_sum. Qed.
+Print Assumptions C35_storage_keys_sum.
+
 (* non-vacuity: the hypotheses are met by concrete non-trivial values *)
 Example C35_nonvacuous :
   let c := {| cfg_london_block := Some 0; cfg_cancun_time := Some 0; cfg_prague_time := Some 10;
